@@ -12,3 +12,4 @@ package pages
 // The page tree is walked recursively along /Kids, which a corrupt file can close into a cycle.
 //@ func (*PageTree) traversePageNode results (err)
 //@   property C02
+//@   decreases 4097 - depth
